@@ -2,8 +2,20 @@
    Property theorems only (proofs in ClientProofs.v); model in Client.v (ClientRequest::send and the request builders).
    resolves = name resolution, site = what each origin answers for a target, net = any exchange function that answers
    by target alone: all universally quantified. *)
-From Hv Require Import Prelude Bytes TablesHttp Http HttpRespSpec Client ClientProofs.
+From Hv Require Import Prelude Bytes TablesHttp TablesClient Http HttpRespSpec Client ClientProofs.
 Open Scope N_scope.
+
+(* The constants regenerated from client.rs on every run (tools/tables/client.py) are the ones the property names:
+   the client follows exactly 301, 302 and 307 (a status is a redirect for the model iff its code is one of them), a
+   Location is relative iff it starts with '/', the schemes are http:// (port 80) and https:// (port 443), and the next
+   target is read from the Location header. *)
+Theorem C07_client_tables :
+  map status_code CLIENT_FOLLOWED_STATUS = [301; 307; 302] /\
+  (forall s, s < status_count -> is_redirect s = true <-> In (status_code s) [301; 302; 307]) /\
+  CLIENT_RELATIVE_FIRST_BYTE = 47 /\
+  CLIENT_HTTP_PREFIX = [104;116;116;112;58;47;47] /\ CLIENT_HTTPS_PREFIX = [104;116;116;112;115;58;47;47] /\
+  CLIENT_HTTP_PORT = 80 /\ CLIENT_HTTPS_PORT = 443 /\ CLIENT_LOCATION_HEADER_IS_LOCATION = true.
+Proof. exact client_tables. Qed.
 
 (* For chains of EVERY length (ends_at is inductive: no bound), every mix of 301/302/307, every Location that is an
    absolute-path reference (with or without query) or an http:// URI whose host resolves, every cookie list, method and
@@ -118,6 +130,7 @@ Example C07_client_observed_cookie_twice :
         (snd (send ex_resolves ex_net 10 (with_redirects (with_cookie st ([107], [118])) true))) = [1; 2; 1; 2]%nat.
 Proof. eexists. split; [vm_compute; reflexivity|]. vm_compute; reflexivity. Qed.
 
+Print Assumptions C07_client_tables.
 Print Assumptions C07_client_follows_chain.
 Print Assumptions C07_client_get_follows_chain.
 Print Assumptions C07_client_no_follow.
